@@ -201,6 +201,7 @@ func c05Run(run *ev.Run) {
 		{Store: "memory", Logout: true, RealGen: true, CookiePrefix: "a"},
 		{Store: "memory", Forward: true, Logout: true, RealGen: true, CookiePrefix: "odd"},
 	}
+	defer debugLogTail(run, 5, func(s world.Spec) seqx.Model { return c05Opts("quick", s).model(c05Monitor(run, s)) }, specs[0], specs[1])
 	for i, spec := range specs {
 		o5 := c05Opts(run.Tier, spec)
 		m := o5.model(c05Monitor(run, spec))
